@@ -207,6 +207,24 @@ def check(ctx: Ctx) -> None:
     check_input_immutability(ctx, 'C01.g', public_api(ctx.model, [FUND], include={'modulate', 'demodulate', 'setConstellation'}), floor=3)
     from ..idioms import check_narrow_index_ranges
     check_narrow_index_ranges(ctx, 'C01.i', [FUND, 'pyphysim/util/conversion.py'], floor=3)
+    # ------------------------------------------------------------------ C01.j
+    from ..idioms import unsigned_wraps
+    ctx.rule('C01.j', 'modulate never subtracts from / negates a value built from the raw index array by integer arithmetic only: indexes and '
+                      'bits are commonly held in UNSIGNED dtypes (np.uint8), for which 1 - 2 * x wraps to 255 instead of -1', floor=2)
+    M = ctx.model
+    for cls in M.module(FUND).classes.values():
+        fn = cls.methods.get('modulate')
+        if fn is None:
+            continue
+        ctx.instance('C01.j', fn.qualname)
+        idx = [p for p in fn.params if p not in ('self', 'cls')][:1]
+        hits = list(unsigned_wraps(fn, idx))
+        ctx.obligation('C01.j', fn.qualname, not hits, {'index_parameter': idx, 'subtractions_on_raw_indexes': [norm(h[0])[:50] for h in hits]})
+        for node, p in hits[:1]:
+            ctx.violation('C01.j', fn.qualname, '`%s` subtracts in the dtype of the raw index array `%s`: for an unsigned dtype (bits held as '
+                          'np.uint8) the result wraps (1 - 2 * 1 == 255), so the emitted symbols are not constellation points and do not '
+                          'demodulate to the input (convert to a signed type first)' % (norm(node)[:50], p), fn.path, node.lineno,
+                          operand='unsigned-wrap')
     for fn, (node, bits, kind) in getattr(ctx, '_narrow_casts', []):
         ctx.error('cannot tell: %s casts `%s` to a %d-bit integer dtype; whether the values fit (bits, or indexes up to M-1) is not '
                   'decidable from the expression (%s:%d)' % (fn.qualname, norm(node)[:60], bits, fn.path, node.lineno))
